@@ -412,9 +412,10 @@ func (c *Ctx) checkStateStore(a *stateAnalysis, fn *ssa.Function, st *ssa.Store,
 			c.ok("C05.c", key, st.Pos(), "LOGOUT handler: any state → Logout")
 			return
 		}
-		c.check(before&^stNotAuth == 0, "C05.c", key, st.Pos(),
-			"Logout outside the LOGOUT handler only from {NotAuthenticated} (unknown command before authentication)",
-			"Logout set from "+before.String()+" outside the LOGOUT handler")
+		// RFC 9051 section 3.4 / figure 1 edge (7): the server may shut the
+		// connection down from any state; C05.d guarantees no command is read
+		// afterwards. The unknown-command requirement itself is rule C05.d.
+		c.ok("C05.c", key, st.Pos(), "server-initiated shutdown: "+before.String()+" → Logout (always an RFC transition; no command is read in Logout, see C05.d)")
 		return
 	}
 	for _, g := range gates {
